@@ -124,6 +124,22 @@ func checkValue(t *core.T, v Val) {
 	if err != nil || !bytes.Equal(js, js2) {
 		t.Fail("value-json-not-stable:"+sig, in, string(js), fmt.Sprint(string(js2), err))
 	}
+	// the same JSON document in other spellings (indented, members reversed, escaped member names)
+	if alts, err := core.JSONSpellings(js); err != nil {
+		t.Fail("harness-json-spelling", string(js), "valid JSON", err.Error())
+	} else {
+		for k, a := range alts {
+			var alt types.Value
+			// encoding/json hands a decoder the value without the surrounding white space; the
+			// direct call is given the same (types.UnmarshalJSON dispatches on the first byte)
+			a = strings.TrimSpace(a)
+			if err := types.UnmarshalJSON([]byte(a), &alt); err != nil {
+				t.Fail(fmt.Sprintf("value-json-spelling-rejected:%d:%s", k, sig), a, "decodes like "+string(js), err.Error())
+			} else if !alt.Equal(back) || !back.Equal(alt) {
+				t.Fail(fmt.Sprintf("value-json-spelling-decodes-differently:%d:%s", k, sig), a, in, fmt.Sprint(alt))
+			}
+		}
+	}
 	// the typed decoder of the value's own type accepts the encoding too
 	switch v.K {
 	case KSet:
@@ -288,6 +304,18 @@ func entityFamily() *core.Family {
 			js2, _ := json.Marshal(back)
 			if !bytes.Equal(js, js2) {
 				t.Fail("entity-json-not-stable", fmt.Sprint(e), string(js), string(js2))
+			}
+			if alts, err := core.JSONSpellings(js); err != nil {
+				t.Fail("harness-json-spelling", string(js), "valid JSON", err.Error())
+			} else {
+				for k, a := range alts {
+					var alt types.Entity
+					if err := json.Unmarshal([]byte(a), &alt); err != nil {
+						t.Fail(fmt.Sprintf("entity-json-spelling-rejected:%d", k), a, "decodes like "+string(js), err.Error())
+					} else if !alt.Equal(e) || !e.Equal(alt) {
+						t.Fail(fmt.Sprintf("entity-json-spelling-decodes-differently:%d", k), a, fmt.Sprint(e), fmt.Sprint(alt))
+					}
+				}
 			}
 			t.Nontrivial()
 			t.Sample(string(js))
